@@ -596,3 +596,201 @@ theorem ByAct.get {kvs T x} (h : ByAct kvs T x []) (a : String) :
     exact ha.1 y
 
 end Rbacx.PyI
+
+namespace Rbacx.PyI
+open PyVal Rbacx.PyE
+
+/-! ### loops followed by a continuation -/
+
+theorem forLoop_inv_bind {σ β : Type} (Inv : List PyVal → σ → Prop) (body : σ → PyVal → Except CondErr (Ctl σ)) (xs : List PyVal)
+    (init : σ) (k : σ → Except CondErr β) (R : Except CondErr β) (hinit : Inv [] init)
+    (hstep : ∀ p x q s, xs = p ++ x :: q → Inv p s → ∃ s', body s x = .ok (.next s') ∧ Inv (p ++ [x]) s')
+    (hk : ∀ s, Inv xs s → k s = R) : PyE.bind (forLoop xs init body) k = R := by
+  obtain ⟨s', hs', hi⟩ := forLoop_inv Inv body xs [] xs rfl hstep init hinit
+  rw [hs']
+  exact hk s' hi
+
+theorem forLoop_fold_enc_bind {σ τ β : Type} (enc : τ → σ) (f : τ → PyVal → τ) (body : σ → PyVal → Except CondErr (Ctl σ)) (xs : List PyVal)
+    (s : τ) (k : σ → Except CondErr β) (R : Except CondErr β)
+    (h : ∀ s x, x ∈ xs → body (enc s) x = .ok (.next (enc (f s x)))) (hk : k (enc (xs.foldl f s)) = R) :
+    PyE.bind (forLoop xs (enc s) body) k = R := by
+  rw [forLoop_fold_enc enc f body xs h s]
+  exact hk
+
+theorem tagList_list (rs : List PyVal) : tagList (.list rs) = .list (tagFrom 0 rs) := rfl
+
+theorem mem_tagFrom_lt {x : PyVal} {i : Nat} {rs : List PyVal} (h : x ∈ tagFrom i rs) : tagNat x < i + rs.length := by
+  induction rs generalizing i with
+  | nil => cases h
+  | cons r rs ih =>
+    simp only [tagFrom, List.mem_cons] at h
+    rcases h with h | h
+    · subst h; rw [tagNat_tag]; simp
+    · have := ih h; simp only [List.length_cons]; omega
+
+theorem mem_tagFrom_untag {x : PyVal} {i : Nat} {rs : List PyVal} (h : x ∈ tagFrom i rs) : untag x ∈ rs := by
+  obtain ⟨k, v, rfl, _, hv⟩ := mem_tagFrom h
+  exact hv
+
+theorem eq_tag_of_split {rs p q : List PyVal} {x : PyVal} (h : tagFrom 0 rs = p ++ x :: q) : x = tag p.length (untag x) ∧ untag x ∈ rs := by
+  have hm : x ∈ tagFrom 0 rs := by rw [h]; simp
+  obtain ⟨k, v, rfl, _, hv⟩ := mem_tagFrom hm
+  have := tagFrom_split h
+  rw [tagNat_tag] at this
+  simp only [Nat.zero_add] at this
+  rw [this, untag_tag]
+  exact ⟨rfl, hv⟩
+
+theorem lenE_idEntries (n : Nat) : lenE (.list (idEntries n)) = .ok (.int n) := by
+  simp [lenE, idEntries_length]
+
+/-! ### the index loop -/
+
+theorem ByAct.retarget {kvs pre x} (h : ByAct kvs pre x []) (x' : PyVal) : ByAct kvs pre x' [] := by
+  intro a
+  have ha := h a
+  cases hl : lookup a kvs with
+  | some v =>
+    rw [hl] at ha
+    obtain ⟨l, rfl, hm⟩ := ha
+    exact ⟨l, rfl, fun y => by rw [hm y]; simp⟩
+  | none =>
+    rw [hl] at ha
+    exact ⟨ha.1, by simp⟩
+
+/-- `for a in acts: if a == "*": continue; by_action.setdefault(a, []).append(x)` -/
+theorem index_inner (body : PyVal → PyVal → Except CondErr (Ctl PyVal)) (x : PyVal) (pre : List PyVal)
+    (hbody : ∀ s a, body s (.str a) = if (Rbacx.Py.eq (.str a) (.str "*")).truthy = true then .ok (.next s)
+        else PyE.bind (setdefaultAppendE s (.str a) x) fun b => .ok (.next b)) :
+    ∀ (acts done : List String) (kvs : List (String × PyVal)), ByAct kvs pre x done →
+      ∃ kvs', forLoop (acts.map PyVal.str) (.dict kvs) body = .ok (.dict kvs') ∧ ByAct kvs' pre x (done ++ acts)
+  | [], done, kvs, h => ⟨kvs, rfl, by rw [List.append_nil]; exact h⟩
+  | a :: acts, done, kvs, h => by
+    simp only [List.map_cons]
+    unfold forLoop
+    rw [hbody, eq_str]
+    by_cases ha : a = "*"
+    · subst ha
+      simp only [beq_self_eq_true, if_true, bind_ok]
+      obtain ⟨kvs', h1, h2⟩ := index_inner body x pre hbody acts (done ++ ["*"]) kvs h.skip_star
+      exact ⟨kvs', h1, by rw [List.append_assoc] at h2; exact h2⟩
+    · have hb : (a == "*") = false := by simpa using ha
+      obtain ⟨kvs1, e1, b1⟩ := h.add a ha
+      simp only [hb, Bool.false_eq_true, if_false, e1, bind_ok]
+      obtain ⟨kvs', h1, h2⟩ := index_inner body x pre hbody acts (done ++ [a]) kvs1 b1
+      exact ⟨kvs', h1, by rw [List.append_assoc] at h2; exact h2⟩
+
+theorem filter_starP_snoc (p : List PyVal) (n : Nat) (v : PyVal) :
+    (p ++ [tag n v]).filter starP = if (compActions v).contains "*" then p.filter starP ++ [tag n v] else p.filter starP := by
+  have hs : starP (tag n v) = (compActions v).contains "*" := by simp only [starP, untag_tag]
+  rw [List.filter_append, List.filter_cons, List.filter_nil, hs]
+  cases (compActions v).contains "*" <;> simp
+
+/-! ### the collection loops -/
+
+def encCS (st : List PyVal × List PyVal) : PyVal × PyVal := (.list st.1, .list st.2)
+
+theorem collect_body (c s : List PyVal) (r : PyVal) (hr : IsTagged r) :
+    (PyE.bind (containsE (.list s) (idOf r)) fun t15 =>
+      if (Rbacx.Py.pnot t15).truthy = true then
+        PyE.bind (appendE (.list c) r) fun candidates =>
+          PyE.bind (addE (.list s) (idOf r)) fun seen => Except.ok (Ctl.next (candidates, seen))
+      else Except.ok (Ctl.next (PyVal.list c, PyVal.list s))) = .ok (.next (encCS (stepC (c, s) r))) := by
+  unfold stepC encCS
+  rw [hr.idOf]
+  simp only [containsE, bind_ok, Rbacx.Py.pnot, PyVal.truthy]
+  cases hin : pyIn (.int (tagNat r)) s
+  · have hany : (s.any fun y => pyEq y (.int (tagNat r))) = false := hin
+    simp [appendE, addE, Rbacx.Py.hashable, Rbacx.Py.setAdd, hany]
+  · simp
+
+/-! ### the buckets -/
+
+/-- buckets and `matched` flags after the candidates `p` -/
+def encB (cat : PyVal → Option Nat) (m : PyVal → Bool) (p : List PyVal) : PyVal × PyVal :=
+  (.list [.list (p.filter fun x => cat x == some 0), .list (p.filter fun x => cat x == some 1),
+          .list (p.filter fun x => cat x == some 2), .list (p.filter fun x => cat x == some 3)],
+   .list [.bool ((p.filter fun x => cat x == some 0).any m), .bool ((p.filter fun x => cat x == some 1).any m),
+          .bool ((p.filter fun x => cat x == some 2).any m), .bool ((p.filter fun x => cat x == some 3).any m)])
+
+theorem encB_snoc_none {cat m} (p : List PyVal) (x : PyVal) (h : cat x = Option.none) : encB cat m (p ++ [x]) = encB cat m p := by
+  simp [encB, List.filter_append, h]
+
+/-- the first bucket with a matching rule -/
+def selectB (m : PyVal → Bool) : List (List PyVal) → List PyVal
+  | [] => []
+  | b :: bs => if b.any m then b else selectB m bs
+
+theorem select_loop (m : PyVal → Bool) (B0 B1 B2 B3 : List PyVal) (body : PyVal → PyVal → Except CondErr (Ctl PyVal))
+    (h0 : ∀ sel, body sel (.int 0) = .ok (if B0.any m then .brk (.list B0) else .next sel))
+    (h1 : ∀ sel, body sel (.int 1) = .ok (if B1.any m then .brk (.list B1) else .next sel))
+    (h2 : ∀ sel, body sel (.int 2) = .ok (if B2.any m then .brk (.list B2) else .next sel))
+    (h3 : ∀ sel, body sel (.int 3) = .ok (if B3.any m then .brk (.list B3) else .next sel)) :
+    forLoop [.int 0, .int 1, .int 2, .int 3] (.list []) body = .ok (.list (selectB m [B0, B1, B2, B3])) := by
+  simp only [forLoop, h0, h1, h2, h3, selectB]
+  cases B0.any m <;> cases B1.any m <;> cases B2.any m <;> cases B3.any m <;> rfl
+
+/-! ### the last step: `evaluate` on the compiled policy -/
+
+theorem lowerChar_idem : ∀ n : Nat, n < 91 → 65 ≤ n → ¬ ('A' ≤ Char.ofNat (n + 32) ∧ Char.ofNat (n + 32) ≤ 'Z') := by decide
+
+theorem sizeL_sublist {l1 l2 : List PyVal} (h : l1.Sublist l2) : sizeL l1 ≤ sizeL l2 := by
+  induction h with
+  | slnil => exact Nat.le_refl _
+  | cons a _ ih => simp only [sizeL]; omega
+  | cons_cons a _ ih => simp only [sizeL]; omega
+
+theorem dictOf_two (a b : PyVal) : Rbacx.Py.dictOf [("algorithm", a), ("rules", b)] = .dict [("algorithm", a), ("rules", b)] := by
+  simp [Rbacx.Py.dictOf, Rbacx.Py.setItem, Rbacx.Py.setKV]
+
+end Rbacx.PyI
+
+namespace Rbacx.PyI
+open PyVal Rbacx.PyE
+
+/-- the state of the index loop after the tagged rules `p`: (order, star_rules, by_action) -/
+def InvA (p : List PyVal) (s : PyVal × PyVal × PyVal) : Prop :=
+  s.1 = .list (idEntries p.length) ∧ s.2.1 = .list (p.filter starP) ∧ ∃ kvs, s.2.2 = .dict kvs ∧ ByAct kvs p PyVal.none []
+
+/-- ONE ITERATION OF THE INDEX LOOP, for any inner body `ib` that does what `if a == "*": continue; by_action.setdefault(a, []).append(rule)`
+    does: from the index of `p` to the index of `p ++ [rule]` -/
+theorem index_step (ib : PyVal → PyVal → Except CondErr (Ctl PyVal)) (p : List PyVal) (kvs : List (String × PyVal)) (v : PyVal)
+    (hib : ∀ s a, ib s (.str a) = if (Rbacx.Py.eq (.str a) (.str "*")).truthy = true then .ok (.next s)
+        else PyE.bind (setdefaultAppendE s (.str a) (tag p.length v)) fun b => .ok (.next b))
+    (hby : ByAct kvs p PyVal.none []) :
+    ∃ s', (if (compActions v).isEmpty = true then
+          Except.ok (Ctl.next (PyVal.list (idEntries (p.length + 1)), PyVal.list (List.filter starP p), PyVal.dict kvs))
+        else
+          PyE.bind
+            (if (compActions v).contains "*" = true then
+              PyE.bind (appendE (.list (List.filter starP p)) (tag p.length v)) fun star_rules => Except.ok star_rules
+            else Except.ok (.list (List.filter starP p)))
+            fun s =>
+            PyE.bind (forLoop (List.map PyVal.str (compActions v)) (.dict kvs) ib)
+              fun s_1 => Except.ok (Ctl.next (PyVal.list (idEntries (p.length + 1)), s, s_1))) =
+        Except.ok (Ctl.next s') ∧ InvA (p ++ [tag p.length v]) s' := by
+  have hlen : (p ++ [tag p.length v]).length = p.length + 1 := by simp
+  by_cases hemp : (compActions v).isEmpty = true
+  · have hnil : compActions v = [] := List.isEmpty_iff.mp hemp
+    simp only [hemp, if_true]
+    refine ⟨_, rfl, ?_, ?_, kvs, rfl, ?_⟩
+    · simp only [hlen]
+    · simp only [filter_starP_snoc, hnil]; rfl
+    · have h2 : ByAct kvs p (tag p.length v) (compActions (untag (tag p.length v))) := by
+        rw [untag_tag, hnil]; exact hby.retarget _
+      exact h2.close _
+  · simp only [hemp, Bool.false_eq_true, if_false]
+    obtain ⟨kvs', e1, b1⟩ := index_inner ib (tag p.length v) p hib (compActions v) [] kvs (hby.retarget _)
+    simp only [List.nil_append] at b1
+    have h2 : ByAct kvs' p (tag p.length v) (compActions (untag (tag p.length v))) := by rw [untag_tag]; exact b1
+    by_cases hst : (compActions v).contains "*" = true
+    · simp only [hst, if_true, appendE, bind_ok, e1]
+      refine ⟨_, rfl, ?_, ?_, kvs', rfl, h2.close _⟩
+      · simp only [hlen]
+      · simp only [filter_starP_snoc, hst, if_true]
+    · simp only [hst, Bool.false_eq_true, if_false, bind_ok, e1]
+      refine ⟨_, rfl, ?_, ?_, kvs', rfl, h2.close _⟩
+      · simp only [hlen]
+      · simp only [filter_starP_snoc, hst, Bool.false_eq_true, if_false]
+
+end Rbacx.PyI
